@@ -536,8 +536,6 @@ func (s *Server) handlePostTx(w http.ResponseWriter, r *http.Request) {
 		return
 	}
 
-	// TODO(fwd): Prevent halt lock release during copy & apply.
-
 	// A forwarded transaction extends the primary's position by one. A file in
 	// snapshot form replaces the whole database and its log whatever the
 	// position is, which is only meant for data coming from the primary or from
@@ -556,11 +554,12 @@ func (s *Server) handlePostTx(w http.ResponseWriter, r *http.Request) {
 	}
 
 	// Wrap request body in a chunked reader.
-	ltxPath, err := db.WriteForwardedLTXFileAt(r.Context(), io.MultiReader(bytes.NewReader(hdrBuf), r.Body))
+	ltxPath, done, err := db.WriteForwardedLTXFileAt(r.Context(), io.MultiReader(bytes.NewReader(hdrBuf), r.Body), lockID)
 	if err != nil {
 		Error(w, r, fmt.Errorf("write ltx file: %s", err), http.StatusInternalServerError)
 		return
 	}
+	defer done()
 
 	// Apply transaction to database.
 	if err := db.ApplyLTXNoLock(ltxPath, true); err != nil {
